@@ -12,6 +12,7 @@ E7b == E7a \cup { Asg("$a", e) : e \in E7a } \cup { Asg("$b", e) : e \in E7a }
                   Asg("x", N(1)), <<"Bin", "=", SelE(Id("y"), "k"), N(1)>>, <<"Bin", "=", N(1), N(2)>>, Asg("x", Asg("$a", N(1))),
                   <<"Bin", "=", SelE(Id("$a"), "k"), N(1)>>, <<"Bin", "=", SelE(Id("$b"), "x"), Id("x")>>,     \* a member of a local is no bare name either
                   Asg("n$", N(1)), Asg("x$y", Id("x")), Asg("_$", N(2)),          \* "$" inside or at the end of a name does not make a local
+                  <<"Call", Id("mapToArr"), <<Id("rows"), S(<<110,97,109,101>>)>>, FALSE>>, Call1("rec", Id("rows")), Call1("len", Id("rows")),      \* the caller's nested maps (one entry is nil) handed to builtins
                   SelE(Id("y"), "l"), Call1("floor", SelE(Id("y"), "k")), <<"Bin", "*", Id("x"), SelE(Id("y"), "k")>> }
 Par7(e) == IF Level(e) >= 1 THEN e ELSE P(e)
 GroupsC07 == { <<"one">> } \cup { <<"comma", a>> : a \in E7b } \cup { <<"arr", a>> : a \in E7b } \cup { <<"recs", a>> : a \in E7b }
